@@ -123,7 +123,7 @@ structure Req where
   gate : Bool      -- a transaction arrives at the yield point just before `rd.stream = stream`
 deriving Repr
 
-inductive Phase | method | decode | nodata | backup | parse | cleanup | save | reload | ok
+inductive Phase | busy | method | decode | nodata | backup | parse | cleanup | save | reload | ok
 deriving DecidableEq, Repr
 
 structure State where
@@ -261,5 +261,47 @@ def handle (env : Env) (st : State) (req : Req) : Result :=
   | .applyFlows => handleApplyFlows env st req
 
 def Result.state (r : Result) : State := ⟨r.disk, r.engine⟩
+
+/-! ### Two overlapping pushes
+
+`handlingLock.TryLock()` is the FIRST statement of both handlers and is released by a deferred
+`Unlock()`: everything a handler reads or writes (the backup snapshot included) happens inside the
+critical section. A push that arrives while another one is inside is answered 226 and touches
+nothing; a push that arrives after the other one left runs on the state it left. Any interleaving
+of the statements of two pushes is therefore one of the four schedules below. -/
+
+/-- A push arriving while `busy` (another push holds `handlingLock`) is answered 226 IM Used. -/
+def handleLocked (env : Env) (st : State) (busy : Bool) (req : Req) : Result :=
+  if busy then ⟨226, .busy, st.disk, st.engine, []⟩ else handle env st req
+
+inductive Sched
+  | aThenB      -- A leaves its critical section before B calls TryLock
+  | bThenA
+  | aDuringB    -- A calls TryLock while B is inside (e.g. parked in its Backup)
+  | bDuringA
+deriving DecidableEq, Repr
+
+structure TwoResult where
+  ra : Result
+  rb : Result
+  final : State
+
+def runTwo (env : Env) (st : State) (a b : Req) : Sched → TwoResult
+  | .aThenB =>
+    let ra := handle env st a
+    let rb := handle env ra.state b
+    ⟨ra, rb, rb.state⟩
+  | .bThenA =>
+    let rb := handle env st b
+    let ra := handle env rb.state a
+    ⟨ra, rb, ra.state⟩
+  | .aDuringB =>
+    let ra := handleLocked env st true a      -- refused, nothing touched
+    let rb := handle env ra.state b
+    ⟨ra, rb, rb.state⟩
+  | .bDuringA =>
+    let rb := handleLocked env st true b
+    let ra := handle env rb.state a
+    ⟨ra, rb, ra.state⟩
 
 end LunarVerif.C08
